@@ -162,6 +162,32 @@ class HeapMixin(object):
       raise Unsupported('bad modifies entry %r' % pat)
     return [(self.fkey(owner, field) + suf, [I, so]) for suf, so in flatten(ty)]
 
+  def key_holds_refs(self, key):
+    """True if the heap component stores object references (for bounded model search)."""
+    try:
+      if key == '$cls':
+        return False
+      m = re.match(r'^((list|set|dict|deque)\[.*\])\.(\w+)((#\d+)*)(#none)?$', key)
+      if m:
+        ty = parse_type(m.group(1))
+        comp = m.group(3)
+        if comp in ('len', 'lo', 'hi', 'card', 'mem', 'has') or m.group(6):
+          return False
+        ety = ty.args[0] if comp == 'items' else ty.args[-1]
+        for idx in re.findall(r'#(\d+)', m.group(4) or ''):
+          ety = ety.args[int(idx)]
+        return ety.k in ('ref', 'list', 'set', 'dict', 'deque')
+      base = key.split('#')[0]
+      cls, _, field = base.rpartition('.')
+      owner, ty = self.field_decl(cls, field)
+      if ty is None or key.endswith('#none'):
+        return False
+      for idx in re.findall(r'#(\d+)', key[len(base):]):
+        ty = ty.args[int(idx)]
+      return ty.k in ('ref', 'list', 'set', 'dict', 'deque')
+    except Exception:
+      return False
+
   def havoc_key(self, st, key, sorts):
     self.arr(st, key, sorts)   # make sure the entry-state array exists in the snapshots
     so = sorts[-1]
@@ -221,11 +247,16 @@ class HeapMixin(object):
         st.assume(z3.And(v.t >= 0, v.t <= st.alloc))
       else:
         st.assume(z3.And(v.t > 0, v.t <= st.alloc))
+      if ty.k == 'ref':
+        ci = self.reg.classes.get(ty.name)
+        if ci is not None and ci.final:
+          tag = self.dyn_class(st, v.t) == self.class_id(ty.name)
+          st.assume(z3.Implies(v.t != 0, tag) if ty.opt else tag)
 
   # ---------------------------------------------------------------- allocation
   def new_ref(self, st, cls=None):
     r = z3.Int(fresh_name('new'))
-    st.assume(r > st.alloc)
+    st.assume(r == st.alloc + 1)     # dense allocation: no unconstrained references in between
     st.alloc = r
     if cls is not None:
       a = self.arr(st, '$cls', [I, I])
